@@ -1,20 +1,20 @@
 """C14 -- coordinate systems and rigid-body geometry (thin partial claim).
 
-Every rule is decided on *values*: the functions are evaluated on symbols (verifier/c14_sem.py, on top of AutoEvaluator), regime by
-regime, and the values that reach a return, a store or a call are compared with the geometric meaning - never with a spelling."""
+Every rule is decided on *values*.  R1 - R3 (verifier/c14_geo.py) *run* the anchored functions with the interpreter of verifier/c14_np.py on inputs
+with concrete shapes and symbolic entries (a 5x3 coordinate-system record with a general rotation, an (n, 3) grid array, a USET table with scalar
+points, q-set members and grids of every output-system type) and compare what is returned with the geometric meaning - never with a spelling.
+R4 evaluates formrbe3 on symbols (verifier/c14_sem.py) and looks at the values that reach the ordering steps."""
 from __future__ import annotations
 
 import ast
-from fractions import Fraction
 
-from . import e2_formula as F
 from . import c14_sem as G
-from .core import AnchorError, Unsupported
+from .c14_geo import r1_inverse_pair, r2_local_frames, r3_rbgeom
+from .core import AnchorError
 from .e1_srcmodel import dotted, parent
 from .e2_eval import is_unknown
 
 N2P = "pyyeti/nastran/n2p.py"
-PI = F.sym("pi")
 # API of the module whose *calls* the rules speak about (never inlined, whatever their spelling)
 PUBLIC_STOPS = ("_get_loc_a_basic", "_mkusetcoordinfo_byid")
 
@@ -26,760 +26,6 @@ def _show(v, n=300):
 
 def _inline(ctx):
     return G.helpers(ctx, N2P, exclude=PUBLIC_STOPS)
-
-
-# ------------------------------------------------------------------------------------------------ R1: forward / inverse point maps
-def _euler():
-    """a general proper rotation Rz(al) Rx(be) Rz(ga): orthonormality is carried by sin^2 + cos^2 = 1 of the normal form, so T.T @ T is
-    the identity *by evaluation* and a transposed or misplaced factor is not"""
-    al, be, ga = F.sym("al"), F.sym("be"), F.sym("ga")
-
-    def rz(t):
-        c, s = F.cos(t), F.sin(t)
-        return ((c, -s, F.const(0)), (s, c, F.const(0)), (F.const(0), F.const(0), F.const(1)))
-
-    def rx(t):
-        c, s = F.cos(t), F.sin(t)
-        return ((F.const(1), F.const(0), F.const(0)), (F.const(0), c, -s), (F.const(0), s, c))
-    return G.matmul(G.matmul(rz(al), rx(be)), rz(ga))
-
-
-def _coordinfo(ctype, T):
-    org = tuple(F.sym(f"o{k}") for k in range(3))
-    return ((F.sym("cid"), F.const(ctype), F.const(0)), org) + tuple(T), org
-
-
-def _free_of(v, names):
-    return not any(G.mentions_sym(v, n) for n in names)
-
-
-class _Acc:
-    """obligations of a rule merged over the regimes that reach them (one obligation per meaning; it fails when any regime fails)"""
-
-    def __init__(self, ctx):
-        self.ctx = ctx
-        self.d = {}
-
-    def check(self, ok, msg, where=None, detail=None, nontrivial=True):
-        cur = self.d.get(msg)
-        if cur is None:
-            self.d[msg] = [bool(ok), where, None if ok else detail, nontrivial]
-        else:
-            if not ok and cur[0]:
-                cur[0], cur[1], cur[2] = False, where, detail
-            cur[3] = cur[3] or nontrivial
-        return ok
-
-    def flush(self):
-        for msg, (ok, where, detail, nt) in self.d.items():
-            self.ctx.check(ok, msg, where, detail, nontrivial=nt)
-        self.d = {}
-
-
-def r1_inverse_pair(ctx):
-    acc = _Acc(ctx)
-    fwd = ctx.src.func(N2P, "_get_loc_a_basic")
-    inv = ctx.src.func(N2P, "getcoordinates")
-    inline = _inline(ctx)
-    T = _euler()
-    a = tuple(F.sym(f"a{k}") for k in range(3))
-    x1, x2 = a[1] * PI / 180, a[2] * PI / 180
-    atan2 = G.atan2_rule([x1, x2], [a[0], a[0] * F.sin(x1)])
-
-    def hook(name, node, ev):
-        if name in G.ATAN2 and len(node.args) == 2:
-            y, x = ev.ev(node.args[0]), ev.ev(node.args[1])
-            if G.is_rat(y) and G.is_rat(x):
-                return atan2(y, x)
-        if name in ("math.acos", "np.arccos") and len(node.args) == 1:
-            v = ev.ev(node.args[0])
-            # acos(cos u) = u for the polar angle 0 <= u <= 180 deg
-            if G.is_rat(v) and G.same(v, F.cos(x1)):
-                return x1
-        return NotImplemented
-
-    for ctype, label in ((1, "rectangular"), (2, "cylindrical"), (3, "spherical")):
-        ci, org = _coordinfo(ctype, T)
-        # ---- forward
-        evs = G.explore(ctx, N2P, fwd, env={"coordinfo": ci, "a": a}, inline=inline)
-        locs = [ev.ret() for ev in evs if not ev.raised]
-        cells = ("cid", "o0", "o1", "o2", "al", "be", "ga")
-        und = sorted({ast.unparse(n) for ev in evs for v, n, d in ev.sh.asked
-                      if G.is_rat(v) and G.fold_bool(v) is None and any(G.mentions_sym(v, c) for c in cells)})
-        if und:
-            ctx.fail(f"_get_loc_a_basic ({label}): the map is selected by the type code (row 0, column 1 of the 5x3 coordinate-system record) alone", fwd,
-                     {"tests on other cells of the record": und[:4]})
-            continue
-        if len(locs) > 1 and all(G.same(x, locs[0]) for x in locs[1:]):
-            locs = locs[:1]
-        loc = locs[0] if len(locs) == 1 else None
-        if not (isinstance(loc, tuple) and len(loc) == 3 and not G.any_unknown(loc)):
-            ctx.error(f"_get_loc_a_basic ({label}): basic location", fwd, _show(locs))
-            continue
-        vec = G.matmul(G.transpose(T), tuple(l - o for l, o in zip(loc, org)))
-        ok = _free_of(vec, ("al", "be", "ga", "o0", "o1", "o2"))
-        ctx.check(ok, f"_get_loc_a_basic ({label}): basic location = origin + T @ (local cartesian vector of the entered coordinates)", fwd,
-                  None if ok else _show(loc))
-        if ctype == 1:
-            ok = G.same(vec, a)
-            ctx.check(ok, "_get_loc_a_basic: type 1 is rectangular (the entered coordinates are the local cartesian vector)", fwd, None if ok else _show(vec))
-
-        # ---- inverse of the forward result, every regime of getcoordinates that produces a result
-        def hook2(name, node, ev, ci=ci):
-            if name == "mkusetcoordinfo":
-                ev._record(name, node)
-                return ci
-            return hook(name, node, ev)
-        env = {"gid": (loc,), "csys": F.const(7)}
-        paths = [ev for ev in G.explore(ctx, N2P, inv, env=env, hook=hook2, inline=inline) if not ev.raised]
-        if not paths:
-            ctx.error(f"getcoordinates ({label}): no regime returns", inv)
-            continue
-        sx, cx = G.atom_id(F.sin(x2)), G.atom_id(F.cos(x2))
-        for ev in paths:
-            res = ev.ret()
-            branch = _branch_tag(ev, sx, cx) if ctype == 3 else ""
-            tag = f"getcoordinates o _get_loc_a_basic ({label}{branch})"
-            if not (isinstance(res, tuple) and len(res) == 3):
-                ctx.error(f"{tag}: result", ev.returns[-1][1] if ev.returns else inv, _show(res))
-                continue
-            where = ev.returns[-1][1]
-            if ctype == 1:
-                ok = G.same(res, a)
-                acc.check(ok, f"{tag}: identity - the origin is subtracted before the transposed transform is applied (inverse of `origin + T @ v` "
-                              "for an orthonormal T)", where, None if ok else _show(res))
-                continue
-            names = ("R", "theta", "z") if ctype == 2 else ("R", "theta (polar angle, entered second)", "phi (azimuth, entered third)")
-            how = ("hypot / norm of the local vector", "atan2(y, x) * 180/pi undoes the pi/180 conversion (argument order, reciprocal factors)",
-                   "passed through" if ctype == 2 else "atan2(y, x) * 180/pi of the in-plane components")
-            for k in range(3):
-                ok = G.same(res[k], a[k])
-                acc.check(ok, f"{tag}: {names[k]} is recovered ({how[k]})", where, None if ok else _show(res[k]))
-            if ctype == 3 and all(G.same(res[k], a[k]) for k in range(3)):
-                _divisor_guard(ctx, acc, ev, tag, x1, x2, a, where)
-    acc.flush()
-
-
-def _branch_tag(ev, sx, cx):
-    """the regime of the spherical inverse, named by what it divides by (not by the spelling of its test)"""
-    kinds = set()
-    for num, den, node in ev.sh.divs:
-        if not G.is_rat(den):
-            continue
-        ids = {aid for aid, _ in G.atoms_of(den)}
-        if sx in ids:
-            kinds.add("sin")
-        if cx in ids:
-            kinds.add("cos")
-    if not kinds:
-        return ", regime without a quotient by sin / cos of the azimuth"
-    return ", regime with a quotient by " + " and ".join(sorted(kinds)) + " of the azimuth"
-
-
-def _divisor_guard(ctx, acc, ev, tag, x1, x2, a, where):
-    """spherical inverse: a quotient by sin(phi) or cos(phi) of the recovered azimuth is formed only on a branch that is not selected where
-    that divisor vanishes (phi = 0 / 180 deg resp. +-90 deg are ordinary points, not polar singularities)"""
-    sx, cx = G.atom_id(F.sin(x2)), G.atom_id(F.cos(x2))
-    base = {G.atom_id(a[0]): Fraction(2), G.atom_id(F.sin(x1)): Fraction(3, 5), G.atom_id(F.cos(x1)): Fraction(4, 5),
-            G.atom_id(a[1]): Fraction(30), G.atom_id(a[2]): Fraction(30), G.atom_id(PI): Fraction(22, 7)}
-    points = {"phi = 0": (0, 1), "phi = 180 deg": (0, -1), "phi = 90 deg": (1, 0), "phi = -90 deg": (-1, 0)}
-    tests = [(v, node, dec) for v, node, dec in ev.sh.asked if G.is_rat(v) and any(aid in (sx, cx) for aid, _ in G.atoms_of(v))]
-    bad, undecided = [], []
-    ndiv = 0
-    for num, den, node in ev.sh.divs:
-        if not G.is_rat(den) or not any(aid in (sx, cx) for aid, _ in G.atoms_of(den)):
-            continue
-        ndiv += 1
-        for pname, (s_, c_) in points.items():
-            asg = dict(base)
-            asg[sx], asg[cx] = Fraction(s_), Fraction(c_)
-            try:
-                if G.conc(den, asg) != 0:
-                    continue
-                taken = all((G.conc(v, asg) != 0) == dec for v, _, dec in tests)
-            except G.Undecided as e:
-                undecided.append(f"{ast.unparse(node)} at {pname}: {e}")
-                continue
-            if taken:
-                bad.append({"quotient": ast.unparse(node), "selected at": f"{pname} (sin = {s_}, cos = {c_})",
-                            "tests": [f"{ast.unparse(n)} is {d}" for _, n, d in tests]})
-    if undecided:
-        ctx.error(f"{tag}: divisor of the in-plane radius", where, undecided)
-        return
-    acc.check(not bad, f"{tag}: a quotient by sin / cos of the azimuth is formed only where the selecting test keeps that divisor away from zero",
-              where, None if not bad else {"violations": bad, "consequence": "the polar angle is computed from 0/0-like round-off at an ordinary point"},
-              nontrivial=ndiv > 0)
-
-
-# ------------------------------------------------------------------------------------------------------------ R3: rbgeom / rbmove
-def _witness_truth(symbols, point, undecided):
-    """truth of a test that speaks about `symbols` (atom ids) at the witness `point`; other tests stay undecided (the regime splits)"""
-    ids = set(symbols)
-    asg = dict(zip(symbols, point))
-
-    def truth(v, node, ev):
-        if not G.is_rat(v) or not any(aid in ids for aid, _ in G.atoms_of(v)):
-            return None
-        try:
-            return G.conc(v, asg) != 0
-        except G.Undecided as e:
-            undecided.append(f"{ast.unparse(node)}: {e}")
-            return None
-    return truth
-
-
-def _rbgeom_block(ev, fn):
-    """6x6 block of one generic grid, assembled from the stores into the returned array (directly `x[a::6, c] = v`, or through an
-    (n, 6, 6) reshaped view `b[:, i, j] = v`); raises Unsupported for a store it cannot place"""
-    out = ev.ret()
-    oid = G.ident(out) if G.is_rat(out) else None
-    if oid is None or not oid.startswith("zeros#"):
-        raise Unsupported(f"rbgeom: the returned array is not allocated by zeros() in the function ({_show(out)})")
-    block = [[F.const(0)] * 6 for _ in range(6)]
-    views = {}
-
-    def ints(x):
-        if isinstance(x, tuple):
-            ks = [G.int_of(y) for y in x]
-            return ks if all(k is not None for k in ks) else None
-        if G.is_rat(x):
-            k = G.int_of(x)
-            if k is not None:
-                return [k]
-            it = ev._const_items(x)
-            if it is not None:
-                return [G.int_of(y) for y in it]
-        return None
-
-    def is_view(name):
-        if name in views:
-            return views[name]
-        r = False
-        for iv in [e.get(f"<init:{G.base_name(name)}>") for e in ev.sh.envs]:
-            p = G.fn_parts(iv) if G.is_rat(iv) else None
-            if p is None or p[0] not in ("call:.reshape", "call:np.reshape") or not p[1] or not G.same(p[1][0], out):
-                continue
-            dims = [G.untuple(x) for x in p[1][1:]]
-            if len(dims) == 1 and isinstance(dims[0], tuple):
-                dims = list(dims[0])
-            if len(dims) == 3 and G.int_of(dims[1]) == 6 and G.int_of(dims[2]) == 6:
-                r = True
-        views[name] = r
-        return r
-
-    for name, ix, val, st in ev.cells:
-        if name is None:
-            raise Unsupported(f"rbgeom: store through an expression `{ast.unparse(st)}`")
-        if isinstance(val, tuple) or is_unknown(val):
-            if name == oid or is_view(name):
-                raise Unsupported(f"rbgeom: stored value of `{ast.unparse(st)}` is not a per-grid scalar ({_show(val)})")
-            continue
-        if name == oid:
-            if not (isinstance(ix, tuple) and len(ix) == 2):
-                raise Unsupported(f"rbgeom: store `{ast.unparse(st)}`")
-            sl = G.as_slice(ix[0]) if G.is_rat(ix[0]) else None
-            cols = ints(ix[1])
-            if sl is None or sl[1] is not None or sl[2] is None or G.int_of(sl[2]) != 6 or cols is None:
-                raise Unsupported(f"rbgeom: store `{ast.unparse(st)}` is not `[a::6, c]`")
-            a = 0 if sl[0] is None else G.int_of(sl[0])
-            if a is None or not 0 <= a < 6 or len(cols) != 1 or not 0 <= cols[0] < 6:
-                raise Unsupported(f"rbgeom: store `{ast.unparse(st)}`")
-            block[a][cols[0]] = val
-        elif is_view(name):
-            if not (isinstance(ix, tuple) and len(ix) == 3):
-                raise Unsupported(f"rbgeom: store `{ast.unparse(st)}`")
-            sl = G.as_slice(ix[0]) if G.is_rat(ix[0]) else None
-            ri, ci = ints(ix[1]), ints(ix[2])
-            if sl != (None, None, None) or ri is None or ci is None:
-                raise Unsupported(f"rbgeom: store `{ast.unparse(st)}` is not `[:, i, j]`")
-            if len(ri) != len(ci):
-                if len(ri) == 1:
-                    ri = ri * len(ci)
-                elif len(ci) == 1:
-                    ci = ci * len(ri)
-                else:
-                    raise Unsupported(f"rbgeom: store `{ast.unparse(st)}`")
-            for i, j in zip(ri, ci):
-                if not (0 <= i < 6 and 0 <= j < 6):
-                    raise Unsupported(f"rbgeom: store `{ast.unparse(st)}`")
-                block[i][j] = val
-    return tuple(tuple(r) for r in block)
-
-
-def _rb_expected(x, y, z):
-    o, i = F.const(0), F.const(1)
-    return ((i, o, o, o, z, -y), (o, i, o, -z, o, x), (o, o, i, y, -x, o), (o, o, o, i, o, o), (o, o, o, o, i, o), (o, o, o, o, o, i))
-
-
-def r3_rbgeom(ctx):
-    fn = ctx.src.func(N2P, "rbgeom")
-    inline = _inline(ctx)
-    g = tuple(F.sym(f"g{k}") for k in "xyz")
-    p = tuple(F.sym(f"p{k}") for k in "xyz")
-    r = tuple(F.sym(f"r{k}") for k in "xyz")
-    gids = {G.atom_id(a): b for a, b in zip(g, p)}
-
-    def sub_hook(base, ix, node, ev):
-        # `grids` is an (n, 3) array whose rows are treated alike: one generic row stands for it
-        if G.is_vector(base) and len(base) == 3 and isinstance(ix, tuple) and len(ix) == 2 and G.is_rat(ix[0]) \
-                and G.as_slice(ix[0]) == (None, None, None) and G.int_of(ix[1]) is not None and not G.any_unknown(base):
-            return base[G.int_of(ix[1])]
-        if G.is_vector(base) and len(base) == 3 and G.is_rat(ix) and G.same(ix, F.sym("refpoint")) and not G.any_unknown(base):
-            return G.rebuild(base, gids)      # the row of the reference grid
-        return NotImplemented
-
-    def hook(name, node, ev):
-        if name == "np.reshape" and len(node.args) == 2:
-            v = ev.ev(node.args[0])
-            if G.is_vector(v) and len(v) == 3:
-                return v
-        if isinstance(node.func, ast.Attribute) and node.func.attr == "reshape":
-            v = ev.ev(node.func.value)
-            if G.is_vector(v) and len(v) == 3:
-                return v
-        return NotImplemented
-
-    def blocks(env, truth, what):
-        evs = [ev for ev in G.explore(ctx, N2P, fn, truth=truth, hook=hook, sub_hook=sub_hook, env=env, inline=inline) if not ev.raised]
-        out = []
-        for ev in evs:
-            try:
-                out.append(_rbgeom_block(ev, fn))
-            except Unsupported as e:
-                ctx.error(f"rbgeom ({what}): 6x6 block of a grid", fn, str(e))
-                return None
-        if not out:
-            ctx.error(f"rbgeom ({what}): no regime returns", fn)
-            return None
-        return out
-
-    # ---- scalar reference: the index of a grid
-    def scalar_truth(v, node, ev):
-        def atom(x):
-            q = G.fn_parts(x)
-            if q is not None and q[0] == "cmp:Eq" and any(G.fn_parts(y) is not None and G.fn_parts(y)[0] in ("call:np.size", "call:len") for y in q[1]) \
-                    and any(G.int_of(y) == 1 for y in q[1]):
-                return True
-            return None
-        return G.truth_of(v, atom)
-    bl = blocks({"grids": g}, scalar_truth, "scalar reference")
-    if bl is not None:
-        want = _rb_expected(*[a - b for a, b in zip(g, p)])
-        ok = all(G.same(b, want) for b in bl)
-        ctx.check(ok, "rbgeom: a scalar reference selects that grid's location: every grid gets [[I, -[(x - x_ref) x]], [0, I]] (unit translation / "
-                      "rotation in its own component, rotational columns theta x r = (0,-z,y), (z,0,-x), (-y,x,0))", fn, None if ok else _show(bl[0], 900))
-    # ---- vector reference: one generic point and the witness table for the short cut
-    rids = [G.atom_id(a) for a in r]
-    table = [("a generic reference point", (Fraction(7), Fraction(-2), Fraction(3))),
-             ("[0, 3.5, -1.25]", (Fraction(0), Fraction(7, 2), Fraction(-5, 4))), ("[1, 0, 0]", (Fraction(1), Fraction(0), Fraction(0))),
-             ("[0, 0, 2]", (Fraction(0), Fraction(0), Fraction(2))), ("[1, -1, 0]", (Fraction(1), Fraction(-1), Fraction(0))),
-             ("[-2, 0, 3]", (Fraction(-2), Fraction(0), Fraction(3)))]
-    seen_w = {w for _, w in table}
-    for x in (0, 1, -1):
-        for y in (0, 1, -1):
-            for z in (0, 1, -1):
-                w = (Fraction(x), Fraction(y), Fraction(z))
-                if w not in seen_w:
-                    table.append((f"[{x}, {y}, {z}]", w))
-    want = _rb_expected(*[a - b for a, b in zip(g, r)])
-    bad, first, generic = [], True, None
-    for label, w in table:
-        und = []
-        bl = blocks({"grids": g, "refpoint": r}, _witness_truth(rids, w, und), f"reference {label}")
-        if und:
-            ctx.error(f"rbgeom (reference {label}): test on the reference point", fn, und)
-            continue
-        if bl is None:
-            continue
-        leaf = {i: F.const(c) for i, c in zip(rids, w)}
-        if first:
-            generic = bl[0]
-        ok = all(G.same(b, generic) or G.same(G.rebuild(b, leaf), G.rebuild(generic, leaf)) for b in bl)
-        if first:
-            first = False
-            ok = all(G.same(b, want) for b in bl)
-            ctx.check(ok, "rbgeom: coordinates are taken relative to a vector reference point: every grid gets "
-                      "[[I, -[(x - ref) x]], [0, I]]", fn, None if ok else _show(bl[0], 900))
-        elif not ok:
-            bad.append({"reference": label, "block": _show(bl[0], 400)})
-    ctx.check(not bad, "rbgeom: the shift is skipped only when every coordinate of the reference point is zero", fn,
-              None if not bad else {"counterexamples": bad, "consequence": "a reference point with one zero coordinate would be ignored"})
-    # ---- rbmove
-    mv = ctx.src.func(N2P, "rbmove")
-    evs = [ev for ev in G.explore(ctx, N2P, mv, inline=inline) if not ev.raised]
-    ok = bool(evs)
-    detail = None
-    for ev in evs:
-        calls = [c for c in ev.calls if c[0] == "rbgeom"]
-        if len(calls) != 1:
-            ok, detail = False, f"{len(calls)} calls of rbgeom"
-            break
-        from .sem import place
-        args = place(calls[0][1], calls[0][2], ["grids", "refpoint"])
-        val = ev.ev(calls[0][3])
-        good = G.same(args.get("grids"), F.sym("oldref")) and G.same(args.get("refpoint"), F.sym("newref")) \
-            and G.same(ev.ret(), G.matmul(F.sym("rb"), val))
-        if not good:
-            ok, detail = False, _show(ev.ret())
-    ctx.check(ok, "rbmove: modes about a new reference = modes @ rbgeom(old reference about new reference)", mv, detail)
-
-
-# ------------------------------------------------------------------------------------------------ R2: rbgeom_uset local frames
-_ELEM = __import__("re").compile(r"^(.*)\[(-?\d+)\]$")
-
-
-def _family(v):
-    """an element `X[k]` of a 3-vector (constant k) -> maker(j) of its siblings, else None"""
-    d = G.single_atom(v) if G.is_rat(v) else None
-    if d is None:
-        return None
-    if d[0] == "s":
-        m = _ELEM.match(d[1])
-        if m:
-            return lambda j, nm=m.group(1): F.sym(f"{nm}[{j}]")
-        return None
-    if d[0] == "fn" and d[1] == "idx" and len(d[2]) == 2:
-        base, k = G._arg(d[2][0]), G._arg(d[2][1])
-        if G.int_of(k) is not None:
-            return lambda j, b=base: F.fn("idx", b, F.const(j))
-    return None
-
-
-def _mask_of(lp):
-    """the selecting mask of a loop over `positions[mask]`, else None"""
-    it = lp["iter"]
-    p = G.fn_parts(it) if G.is_rat(it) else None
-    if p is None or p[0] != "idx" or len(p[1]) != 2:
-        return None
-    m = p[1][1]
-    return m if G.is_rat(m) and (G.fn_atoms(m, "cmp:Eq") or (G.fn_parts(m) or ("",))[0] == "cmp:Eq") else None
-
-
-def _mask_code(mask):
-    """mask == (source == k) -> ('eq', k, source); its negation -> ('negated', k, source); else (None, None, None)"""
-    def eq(v):
-        q = G.fn_parts(v)
-        if q is None or q[0] != "cmp:Eq" or len(q[1]) != 2:
-            return None
-        ks = [G.int_of(a) for a in q[1]]
-        if (ks[0] is None) == (ks[1] is None):
-            return None
-        return (ks[0] if ks[0] is not None else ks[1]), (q[1][1] if ks[0] is not None else q[1][0])
-    if mask is None:
-        return None, None, None
-    e = eq(mask)
-    if e is not None:
-        return "eq", e[0], e[1]
-    q = G.fn_parts(mask)
-    if q is not None and q[0] in ("not", "invert") and eq(q[1][0]) is not None:
-        e = eq(q[1][0])
-        return "negated", e[0], e[1]
-    return None, None, None
-
-
-def _family_in(M):
-    """the 3-vector whose elements the entries of a frame matrix are made of (when no atan2 call names it)"""
-    fams = {}
-    for aid, d in G.atoms_of(M):
-        f = _family(G.atom_rat(aid))
-        if f is not None:
-            key = G.vkey(f(0))
-            fams.setdefault(key, [0, f])[0] += 1
-    if not fams:
-        return None
-    return max(fams.values(), key=lambda x: x[0])[1]
-
-
-def _loop_rows(ev, lp):
-    """rows of one array stored during one generic iteration -> (array id, base row value, {offset: final value}, [row symbol names])"""
-    log = ev.sh.rowlog[lp["rows"][0]:lp["rows"][1]]
-    by = {}
-    for buf, e, val, st in log:
-        by.setdefault(buf, []).append(e)
-    cand = [(len(v), k) for k, v in by.items() if k.startswith("zeros#")]
-    if not cand:
-        return None
-    buf = max(cand)[1]
-    es = by[buf]
-    offs = [G.int_of(e - es[0]) for e in es]
-    if any(o is None for o in offs):
-        return None
-    base = es[0] + min(offs)
-    outside = []
-    var = lp.get("var")
-    if G.is_rat(var) and _mask_of(lp) is not None:
-        # the loop runs over the first rows of the selected grids: rows var .. var + 5 are the grid's own
-        rel = [G.int_of(e - var) for e in es]
-        if all(o is not None for o in rel):
-            base = var
-            outside = sorted({o for o in rel if not 0 <= o < 6})
-    final, names = {}, []
-    for k in range(6):
-        e = base + k
-        names.append(f"{buf}[{e!r}]")
-        final[k] = ev.sh.memory.get((buf, G.vkey(e)), F.sym(names[-1]))
-    return buf, base, final, names, outside
-
-
-def _loop_matrix(ev, lp):
-    r = _loop_rows(ev, lp)
-    if r is None:
-        return None
-    buf, base, final, names, outside = r
-    M = []
-    for k in range(6):
-        cs = G.linear_in(final[k], names)
-        if cs is None:
-            return None
-        M.append(tuple(cs))
-    return base, tuple(M)
-
-
-def _atan2_calls(ev, lp):
-    return [c for c in ev.calls[lp["calls"][0]:lp["calls"][1]] if c[0] in G.ATAN2]
-
-
-_OFF_AXIS = [(1, 0, 0), (-1, 0, 0), (0, 1, 0), (0, -1, 0), (1, 1, 0), (1, -1, 0), (-1, 1, 0), (-1, -1, 0), (-1, 0, 2), (0, -1, -3),
-             (1, 0, -1), (0, 2, -2), (3, -3, 1), (-3, 4, -5), (3, 4, 5), (Fraction(1, 1000), 0, 0), (0, Fraction(-1, 1000), 0),
-             (Fraction(1, 1000), Fraction(-1, 1000), 5)]
-
-
-def r2_local_frames(ctx):
-    fn = ctx.src.func(N2P, "rbgeom_uset")
-    inline = _inline(ctx)
-
-    def lib_truth(v, node, ev):
-        def atom(x):
-            q = G.fn_parts(x)
-            if q is not None and q[0] in ("any", "all", "call:any", "call:np.any"):
-                return True          # "there are such grids": the regime in which every block of the function runs
-            return None
-        return G.truth_of(v, atom)
-
-    paths = [ev for ev in G.explore(ctx, N2P, fn, truth=lib_truth, inline=inline) if not ev.raised]
-    if not paths:
-        raise AnchorError("rbgeom_uset: no regime returns")
-    gen = max(paths, key=lambda ev: (len([c for c in ev.calls if c[0] in G.ATAN2]), len(ev.sh.rowlog)))
-    U = gen.sh.envs[0].get("uset")
-    if not G.is_rat(U):
-        raise Unsupported("rbgeom_uset: the (row-selected) USET table")
-    iloc = F.fn("attr:iloc", U)
-    tail = G.slice_value(F.const(1), None, None)
-
-    def A(b):
-        return F.fn("attr:T", F.fn("idx", iloc, F.fn("tuple", G.slice_value(b + 3, b + 6, None), tail)))
-
-    def X(b):
-        return F.fn("idx", iloc, F.fn("tuple", b, tail))
-    # ---- the rectangular step
-    top = [lp for lp in gen.sh.loops if lp["depth"] == 0 and lp["outer"] is None and _loop_rows(gen, lp) is not None]
-    rect = [lp for lp in top if _mask_of(lp) is None and not _atan2_calls(gen, lp)]
-    rbcall = [c for c in gen.calls if c[0] == "rbgeom"]
-    ok, detail = len(rect) == 1 and len(rbcall) == 1, None
-    if ok:
-        buf, b, final, names, _ = _loop_rows(gen, rect[0])
-        rbv = gen.ev(rbcall[0][3])
-        for k in range(6):
-            if not G.same(final[k], A(b) * F.fn("idx", rbv, b + k)):
-                ok, detail = False, {"row": k, "value": _show(final[k])}
-                break
-    ctx.check(ok, "rbgeom_uset: the basic rigid-body rows of every grid are taken to its output system with the transpose of that grid's own 3x3 "
-                  "(table rows 3..5, columns x, y, z), translations and rotations alike", rect[0]["node"] if rect else fn, detail)
-    # ---- every grid is visited: first rows 0, 6, 12, ... of the (row-selected) table
-    nrows = [F.fn("idx", F.fn("attr:shape", U), F.const(0)), F.fn("call:len", U)]
-    nrows += [6 * F.fn("floordiv", n_, F.const(6)) for n_ in list(nrows)]
-    ngrid = [F.fn("floordiv", n_, F.const(6)) for n_ in nrows[:2]]
-
-    def first_rows(itv, var, base):
-        """True / False when the iterable is understood, None otherwise"""
-        q = G.fn_parts(itv) if G.is_rat(itv) else None
-        if q is None or q[0] not in ("call:range", "call:np.arange"):
-            return None
-        a_ = q[1]
-        if len(a_) == 1:
-            return any(G.same(a_[0], n_) for n_ in ngrid) and G.same(base, 6 * var)
-        if len(a_) == 3:
-            return G.int_of(a_[0]) == 0 and G.int_of(a_[2]) == 6 and any(G.same(a_[1], n_) for n_ in nrows) and G.same(base, var)
-        return False
-    if len(rect) == 1:
-        _, b, _, _, _ = _loop_rows(gen, rect[0])
-        r_ = first_rows(rect[0]["iter"], rect[0]["var"], b) if G.is_rat(rect[0]["var"]) else None
-        if r_ is None:
-            ctx.error("rbgeom_uset: rows visited by the rectangular step", rect[0]["node"], _show(rect[0]["iter"]))
-        else:
-            ctx.check(r_, "rbgeom_uset: the rectangular step visits every grid: blocks of six rows starting at 0, 6, 12, ... of the selected table",
-                      rect[0]["node"], None if r_ else {"iterable": _show(rect[0]["iter"]), "first row": _show(b)})
-    # ---- the rows of the grids, and only those, of the returned array receive the result
-    ret = gen.ret()
-    sel = (G.fn_parts(U) or ("", []))
-    sel = sel[1][1] if sel[0] == "idx" and len(sel[1]) == 2 else None
-    if len(rect) == 1 and G.is_rat(ret) and G.ident(ret) is not None and sel is not None:
-        rbuf = _loop_rows(gen, rect[0])[0]
-        hits = [(e, v) for buf_, e, v, st in gen.sh.rowlog if buf_ == G.ident(ret) and G.is_rat(v) and G.ident(v) == rbuf]
-        hits += [(ix[0], v) for nm, ix, v, st in gen.cells if nm == G.ident(ret) and isinstance(ix, tuple) and len(ix) == 2 and G.is_rat(v)
-                 and G.ident(v) == rbuf and G.is_rat(ix[1]) and G.as_slice(ix[1]) == (None, None, None)]
-        ok = len(hits) == 1 and G.same(hits[0][0], sel)
-        ctx.check(ok, "rbgeom_uset: the local-frame rows are written to the rows of the grids that were selected (scalar points and q-set grids keep "
-                      "zeros) of the returned array", gen.returns[-1][1] if gen.returns else fn,
-                  None if ok else {"stores": [(_show(e, 120), _show(v, 60)) for e, v in hits]})
-    else:
-        ctx.error("rbgeom_uset: returned array", fn, _show(ret))
-    # ---- the cylindrical / spherical fix-ups
-    loops = [lp for lp in top if lp not in rect]
-    want_type = gen.expr('uset.loc[(slice(None), 2), "y"]')
-    rho, phi, zz, Rr, th = F.sym("rho"), F.sym("phi"), F.sym("zeta"), F.sym("Rr"), F.sym("theta")
-    o, i1 = F.const(0), F.const(1)
-    frames = {
-        2: ("cylindrical", {0: rho * F.cos(phi), 1: rho * F.sin(phi), 2: zz},
-            ((F.cos(phi), F.sin(phi), o), (-F.sin(phi), F.cos(phi), o), (o, o, i1)), "[e_r, e_theta, e_z]"),
-        3: ("spherical", {0: rho * F.cos(phi), 1: rho * F.sin(phi), 2: zz},
-            ((F.sin(th) * F.cos(phi), F.sin(th) * F.sin(phi), F.cos(th)), (F.cos(th) * F.cos(phi), F.cos(th) * F.sin(phi), -F.sin(th)),
-             (-F.sin(phi), F.cos(phi), o)), "[e_R, e_theta, e_phi]"),
-    }
-    rule = G.atan2_rule([phi], [rho])                  # in-plane:  (x, y) = rho (cos phi, sin phi),  rho > 0 off the polar axis
-    rule2 = G.atan2_rule([th], [Rr])                   # meridian:  (rho, z) = R (sin theta, cos theta),  R > 0
-    stage2 = {G.atom_id(rho): Rr * F.sin(th), G.atom_id(zz): Rr * F.cos(th)}
-    found = {}
-    info = []
-    for lp in loops:
-        mask = _mask_of(lp)
-        kind, code, src = _mask_code(mask)
-        if kind == "negated":
-            ctx.fail("rbgeom_uset: a local-frame fix-up is applied to the grids of one output-system type only", lp["node"],
-                     {"selection": _show(mask), "consequence": f"grids of every type other than {code} are rotated into a frame that is not theirs"})
-            continue
-        if kind != "eq":
-            ctx.error("rbgeom_uset: selection of the grids of a local-frame fix-up", lp["node"], _show(lp["iter"]))
-            continue
-        calls = _atan2_calls(gen, lp)
-        rows = _loop_rows(gen, lp)
-        pos = G.fn_parts(lp["iter"])[1][0]
-        r_ = first_rows(pos, lp["var"], rows[1]) if rows is not None and G.is_rat(lp["var"]) else None
-        if r_ is None:
-            ctx.error(f"rbgeom_uset (type {code}): positions of the selected grids", lp["node"], _show(pos))
-            continue
-        if not r_:
-            ctx.fail(f"rbgeom_uset: a fix-up runs over the first rows (0, 6, 12, ...) of the grids its mask selects", lp["node"],
-                     {"positions": _show(pos), "first row used": _show(rows[1])})
-            continue
-        if rows is not None and rows[4]:
-            ctx.fail("rbgeom_uset: the fix-up of a grid rewrites rows of that grid only (rows i .. i + 5 of its first row i)", lp["node"],
-                     {"row offsets outside 0..5": rows[4]})
-            continue
-        mat = _loop_matrix(gen, lp)
-        fam = (_family(calls[0][1][0]) or _family(calls[0][1][1])) if calls else (_family_in(mat[1]) if mat is not None else None)
-        if code not in frames:
-            ctx.fail("rbgeom_uset: a position-dependent frame is applied to cylindrical (type 2) and spherical (type 3) grids only", lp["node"],
-                     {"selection": _show(mask), "consequence": f"there is no curvilinear output system of type {code}; the grids of one of the types 2, 3 "
-                                                               "are left in (or taken out of) their rectangular frame"})
-            continue
-        if fam is None or mat is None:
-            ctx.error("rbgeom_uset: local-frame fix-up", lp["node"], {"type code": code, "first atan2": _show(calls[0][1]) if calls else None,
-                                                                      "rows": mat is not None})
-            continue
-        found[code] = G.same(src, want_type)
-        label, par, frame, fname = frames[code]
-        b, M = mat
-        l = [fam(j) for j in range(3)]
-        lids = [G.atom_id(x) for x in l]
-        info.append((lp, code, lids, M, calls))
-        # local position of the grid in its output system
-        locv = None
-        d0 = G.single_atom(l[0])
-        if d0[0] == "s":
-            nm = G.base_name(_ELEM.match(d0[1]).group(1))
-            locv = next((v for n_, v, _ in gen.sh.inits[lp["inits"][0]:lp["inits"][1]][::-1] if n_ == nm), None)
-        else:
-            locv = G._arg(d0[2][0])
-        want = G.matmul(A(b), X(b) - X(b + 2))
-        ok = G.same(locv, want)
-        ctx.check(ok, f"rbgeom_uset ({label}): the local position of a grid is (its own 3x3).T @ (grid location - origin of its output system), "
-                      "rows 0 and 2 of the grid's table block", lp["node"], None if ok else _show(locv))
-        # frame in the generic regime (off the polar axis)
-        leaf = {lids[j]: par[j] for j in range(3)}
-        Mp = G.rebuild(M, leaf, rule)
-        if code == 3:
-            Mp = G.rebuild(Mp, stage2, rule2)
-        tt = tuple(r[:3] for r in Mp[:3])
-        rr = tuple(r[3:] for r in Mp[3:])
-        cross = all(x.is_zero() for r in Mp[:3] for x in r[3:]) and all(x.is_zero() for r in Mp[3:] for x in r[:3])
-        ok = cross and G.same(tt, frame)
-        ctx.check(ok, f"rbgeom_uset ({label}): the translational rows of a grid off the polar axis are rotated into the local frame {fname} at the "
-                      "grid's position (rows = unit vectors; azimuth = atan2(local y, local x)"
-                      + (", polar angle = atan2(in-plane radius, local z))" if code == 3 else ")"), lp["node"], None if ok else _show(tt, 900))
-        ok = cross and G.same(rr, frame)
-        ctx.check(ok, f"rbgeom_uset ({label}): the rotational rows are rotated by the same frame as the translational rows", lp["node"],
-                  None if ok else _show(rr, 900))
-    if set(found) != {2, 3} and any(o.status == "fail" and o.rule == ctx.rule for o in ctx.obls):
-        return
-    if set(found) != {2, 3}:
-        ctx.error("rbgeom_uset: one local-frame fix-up per curvilinear type (2 cylindrical, 3 spherical)", fn, {"types bound": sorted(found)})
-        return
-    ok = found.get(2) is True and found.get(3) is True
-    ctx.check(ok, "rbgeom_uset: cylindrical grids are those whose output-system type (table row 2, column y) is 2, spherical 3 - the same codes that "
-                  "_get_loc_a_basic and getcoordinates dispatch on", fn, None if ok else {str(k): v for k, v in found.items()})
-    # ---- the polar-axis short cuts, decided at the points of a witness table
-    names = {(2, 0): "cylindrical azimuth", (3, 0): "spherical azimuth", (3, 1): "spherical polar angle"}
-    verdict = {}
-    for lp, code, lids, M, calls in info:
-        for n, c in enumerate(calls):
-            verdict[(code, n, id(c[3]))] = [names.get((code, n), f"angle {n + 1} of type {code}"), c[3], []]
-        if not calls:
-            verdict[(code, 0, id(lp["node"]))] = [f"{frames[code][0]} frame", lp["node"], []]
-    und = []
-    allids = sorted({x for _, _, lids, _, _ in info for x in lids})
-    for w in _OFF_AXIS:
-        w = tuple(Fraction(x) for x in w)
-
-        def truth(v, node, ev, w=w):
-            r = lib_truth(v, node, ev)
-            if r is not None or not info:
-                return r
-            for _, _, lids, _, _ in info:
-                if G.is_rat(v) and any(aid in lids for aid, _ in G.atoms_of(v)):
-                    try:
-                        return G.conc(v, dict(zip(lids, w))) != 0
-                    except G.Undecided as e:
-                        und.append(f"{ast.unparse(node)} at {tuple(map(str, w))}: {e}")
-                        return None
-            return None
-        wpaths = [ev for ev in G.explore(ctx, N2P, fn, truth=truth, inline=inline, presets=gen.decisions) if not ev.raised]
-        for ev in wpaths:
-            for lp, code, lids, M, calls in info:
-                lw = [x for x in ev.sh.loops if x["node"] is lp["node"]]
-                guards_gen = [1 for v, n, d in gen.sh.asked[lp["asked"][0]:lp["asked"][1]] if G.is_rat(v) and any(a_ in lids for a_, _ in G.atoms_of(v))]
-                guards_w = [1 for v, n, d in ev.sh.asked[lw[0]["asked"][0]:lw[0]["asked"][1]] if G.is_rat(v) and any(a_ in lids for a_, _ in G.atoms_of(v))] \
-                    if lw else []
-                if guards_gen and not guards_w:
-                    und.append(f"the evaluation at {tuple(map(str, w))} does not meet the tests of the generic evaluation")
-                    continue
-                mw = _loop_matrix(ev, lw[0]) if lw else None
-                if lw and mw is None and not any(r_[0].startswith("zeros#") for r_ in ev.sh.rowlog[lw[0]["rows"][0]:lw[0]["rows"][1]]):
-                    mw = (None, tuple(tuple(F.const(int(p_ == q_)) for q_ in range(6)) for p_ in range(6)))      # nothing was rotated
-                asg = dict(zip(lids, w))
-                try:
-                    if mw is not None:
-                        a_, b_ = G.conc(mw[1], asg), G.conc(M, asg)
-                        differs = any(abs(p - q) > Fraction(1, 10 ** 12) for p, q in zip(G._flat(a_), G._flat(b_)))
-                    else:
-                        differs = True
-                except G.Undecided as e:
-                    und.append(f"frame at {tuple(map(str, w))}: {e}")
-                    continue
-                if not differs:
-                    continue
-                reached = {id(c[3]) for c in (_atan2_calls(ev, lw[0]) if lw else [])}
-                missing = [k for k in verdict if k[0] == code and k[2] not in reached]
-                tests = [f"{ast.unparse(n)} is {d}" for v, n, d in ev.sh.asked[lw[0]["asked"][0]:lw[0]["asked"][1]]
-                         if G.is_rat(v) and any(aid in lids for aid, _ in G.atoms_of(v))] if lw else []
-                for k in (missing or [k for k in verdict if k[0] == code]):
-                    verdict[k][2].append({"local position": [str(x) for x in w], "tests": tests})
-    if und:
-        ctx.error("rbgeom_uset: polar-axis tests at the witness points", fn, und[:6])
-    for (code, n, _), (name, node, bad) in verdict.items():
-        ctx.check(not bad, f"rbgeom_uset: the rotation by the {name} is skipped only when both arguments of its atan2 vanish (the grid is on the polar axis)",
-                  node, None if not bad else {"counterexamples": bad[:4],
-                                              "consequence": "a grid off the axis is left in the rectangular frame of its output system"})
 
 
 # ------------------------------------------------------------------------------------------------ R4: formrbe3 DOF order
@@ -874,29 +120,34 @@ def r4_rbe3_order(ctx):
 
 RULES = [
     ("C14-R1", r1_inverse_pair, 12),
-    ("C14-R2", r2_local_frames, 11),
-    ("C14-R3", r3_rbgeom, 4),
+    ("C14-R2", r2_local_frames, 13),
+    ("C14-R3", r3_rbgeom, 6),
     ("C14-R4", r4_rbe3_order, 3),
 ]
 LEVEL = "other"
-EXPLANATION = ("Static, decided on values (verifier/c14_sem.py evaluates the functions on symbols, regime by regime, following loops, private helpers, "
-               "aliases and module constants): (R1) getcoordinates composed with _get_loc_a_basic is the identity on the entered coordinates for "
-               "rectangular, cylindrical and spherical systems with a general orientation (Euler-angle matrix, orthonormal by sin^2+cos^2=1) and origin, "
-               "and a quotient by sin/cos of the azimuth is formed only where its selecting test keeps the divisor away from zero; (R2) rbgeom_uset takes "
-               "each grid's rows (blocks of six, every grid) to its output system, builds the local position from the grid's own table block, rotates translations and rotations "
-               "into the local cylindrical / spherical unit-vector frame, selects grids by the type codes 2 / 3, and skips a rotation only on the polar axis "
-               "(witness table of off-axis points), rewrites only the grid's own rows and returns them at the rows of the selected grids; (R3) rbgeom's 6x6 block per grid is [[I, -[r x]], [0, I]] about a scalar or vector reference, the zero "
-               "short cut is taken only for the zero vector, rbmove composes with rbgeom; (R4) formrbe3 orders rows / columns against the USET index in "
-               "table order.")
+EXPLANATION = ("Static, decided on values: the anchored functions are *executed* by a small interpreter (verifier/c14_np.py: Python statements, closures, "
+               "numpy arrays with view semantics, the USET table) on inputs with concrete shapes and symbolic entries, regime by regime, and the returned "
+               "values are compared with the geometric meaning. (R1) getcoordinates composed with _get_loc_a_basic is the identity on the entered "
+               "coordinates for rectangular, cylindrical and spherical systems with a general orientation (Euler-angle matrix, orthonormal by "
+               "sin^2+cos^2=1) and origin, and a quotient by sin/cos of the azimuth is formed only where its selecting test keeps the divisor away from "
+               "zero; (R2) rbgeom_uset, run on tables with scalar points, q-set members and grids of every output-system type in several orders, returns for "
+               "every grid blockdiag(F T', F T') @ [[I, -[(x - ref) x]], [0, I]] with F the identity / the cylindrical / the spherical unit-vector frame at "
+               "the grid's local position, zeros elsewhere, for a vector and a grid-id reference point, and skips a rotation only on the polar axis "
+               "(witness table of off-axis points, exact numbers); (R3) rbgeom's 6x6 block per grid is [[I, -[r x]], [0, I]] about a scalar, vector, (1, 3) or "
+               "default reference, the zero short cut is taken only for the zero vector, rbmove composes with rbgeom; (R4) formrbe3 orders rows / columns "
+               "against the USET index in table order.")
 MANIFEST = {
     "text": "Thin partial claim decided statically: (R1) forward/inverse point maps are algebraic inverses for rectangular, cylindrical and spherical systems "
             "(any orientation and origin), with a sound divisor selection in the spherical inverse; (R2) rbgeom_uset expresses every grid in its own output "
             "system: rectangular step, local position, cylindrical/spherical unit-vector frames applied to both row triplets, type codes 2/3, rotations "
-            "skipped only at the true polar axis; (R3) rbgeom is theta x r about the reference point, the shift is skipped only for the zero vector, rbmove "
-            "composes with rbgeom; (R4) formrbe3 sorts against the USET table in table order. "
+            "skipped only at the true polar axis, scalar points and q-set grids left zero, vector and grid-id reference points; (R3) rbgeom is theta x r about "
+            "the reference point, the shift is skipped only for the zero vector, rbmove composes with rbgeom; (R4) formrbe3 sorts against the USET table in "
+            "table order. "
             "Not decided: reference-chain resolution (mkusetcoordinfo / build_coords), rbcoords, the least-squares solve of formrbe3, replace_basic_cs.",
-    "note": "Trusted: CPython ast; verifier/e2_formula.py; verifier/c14_sem.py. atan2(k sin u, k cos u) = u is used for k > 0 (R > 0, 0 < theta < 180 deg: "
-            "away from the polar singularities, as in the property's domain). Guards are refuted, never proved, at the points of a finite witness table "
-            "(exact rational arithmetic; square roots to 1e-30).",
-    "technique": "static symbolic evaluation and composition of the coordinate maps and rigid-body blocks; exact evaluation of extracted guards at witness points",
+    "note": "Trusted: CPython ast; verifier/e2_formula.py; verifier/c14_np.py (model of the Python / numpy / pandas operations the anchored functions "
+            "use; mksetpv, mkdofpv and - inside rbgeom_uset / rbmove - rbgeom are modelled by their documented meaning); verifier/c14_sem.py. "
+            "atan2(k sin u, k cos u) = u is used for k > 0 (R > 0, 0 < theta < 180 deg: away from the polar singularities, as in the property's domain). "
+            "Guards are refuted, never proved, at the points of a finite witness table (exact rational arithmetic; square roots to 1e-30).",
+    "technique": "static symbolic execution (concrete shapes, symbolic entries) and composition of the coordinate maps and rigid-body blocks; exact "
+                 "evaluation at witness points",
 }
